@@ -269,7 +269,7 @@ def extreme_unit(F, S, struct, rid, transform=None):
     tr = transform or (lambda t: t)
     mstruct = "Minimum"
     fn = F.method(struct, "next", trait="Next", next_input="f64")
-    finder = [f for f in F.fns_of(struct) if f.name.startswith("find_") and not f.derived]
+    finder = [f for f in F.fns_of(struct) if not f.derived and not f.d.get("impl_trait") and f.kind == "AssocFn" and f.name != "new" and F.loopy(f)]
     if fn is None or len(finder) != 1:
         S.bad(rid, "state-shape", struct, "%s no longer has the cached-extreme shape (next + one rescan helper)" % struct)
         return
@@ -334,7 +334,7 @@ def extreme_unit(F, S, struct, rid, transform=None):
         iv = [x for x in ex.ivar_bounds][0]
         b = ex.ivar_bounds[iv]
         elem = ("select", pb, iv)
-        whole = b["array"] == ("self", buf) and b["start"] == cu(0) and b["end"] == ("len", pb)
+        whole = (b["array"] == ("self", buf) or b["array"] is None) and b["start"] == cu(0) and b["end"] == ("len", pb)
         trackers = [(k, v) for k, v in summ.items() if isinstance(v, tuple) and v[0] == "pick"]
         mt = [(k, v) for k, v in trackers if v[1] == cf(math.inf)]
         it = [(k, v) for k, v in trackers if v[1] == cu(0)]
